@@ -50,6 +50,10 @@ def gen_opts(rng, ds):
             opts[n], cls[n] = pick(leads, all_leads, 7.0)
         elif n == "locations":
             opts[n], cls[n] = pick([l[0] for l in locs], list(all_locs), 424242)
+            if rng.random() < 0.3:
+                # the same id listed twice (e.g. overlapping ranges 1:2,2:3) selects it once
+                opts[n] = opts[n] + [rng.choice(opts[n])]
+                cls[n] += "+dup"
         elif n == "locations_x":
             if rng.random() < 0.15:
                 opts[n], cls[n] = [l[0] for l in locs], "all"
